@@ -32,11 +32,13 @@ class FeatureIDEWriter(ModelToText):
 
     def transform(self) -> str:
         fm_tree = _to_featureidexml(self._source_model).getroot()
+        # ElementTree escapes the line breaks and tabs of attribute values (&#10; &#09;); minidom's
+        # pretty printer wrote them raw, and a name containing one was read back with a blank instead
+        ElementTree.indent(fm_tree, space='\t')
         xml_str = ElementTree.tostring(fm_tree,
                                        encoding='UTF-8',
                                        method='xml',
                                        xml_declaration=True)
-        xml_str = prettify(xml_str)
         if self._path is not None:
             with open(self._path, 'wb') as file:
                 file.write(xml_str)
